@@ -73,11 +73,16 @@ def dom_bitmap(ctx):
     fn = FN
     need(fn in f.thir, r, fn)
     sts = T.stmts(f.thir[fn]["body"], {"__noinline__": True})
-    lk = [s for s in sts if s[0] == "let" and T.sx_calls(s[3], "Iterator::find") and any(x[0] == "adt" and x[2] == "SymbolSize" and x[1] == BCE for x in T.sx_walk(s[3]))]
+    # (a hoisted `let matching = ..find(..)` is looked through)
+    lv = T.let_values(sts)
+
+    def thru(e):
+        return T.map_sx(e, lambda n: T.look_through(n, lv) if n[0] == "var" else n)
+    lk = [s for s in sts if s[0] == "let" and T.sx_calls(thru(s[3]), "Iterator::find") and any(x[0] == "adt" and x[2] == "SymbolSize" and x[1] == BCE for x in T.sx_walk(s[3]))]
     ok = len(lk) == 1 and len(sites.get("SymbolSize", [])) == 1
     det = None
     if ok:
-        e = lk[0][3]
+        e = thru(lk[0][3])
         fd = T.sx_calls(e, "Iterator::find")[0]
         src = fd[2][0]
         ok = any(x[0] == "call" and x[1] == "symbol_size::SymbolList::all" for x in T.sx_walk(src)) and fd[2][1][0] == "closure" and e[0] == "try" \
@@ -384,11 +389,21 @@ def render_geom(ctx):
     ok = res[0] == "expr" and res[1][0] == "adt" and res[1][1].endswith("Bitmap") and dict(res[1][3]).get("width", ("x",))[:2] == ("var", "w")
     ob("result", ok, "the Bitmap carries width w")
     # helper: stores grouped by enclosing loops
-    def loops_of(stl, ctxs=()):
+    guards = {}      # id(store) -> {loop variable: (modulus, residue)} from enclosing `if v % m == c` statements
+
+    def parity_guard(c):
+        if c[0] == "bin" and c[1] == "Eq" and c[3][0] == "lit" and c[2][0] == "bin" and c[2][1] == "Rem" and c[2][2][0] == "var" and c[2][3][0] == "lit":
+            return c[2][2][1], (c[2][3][1], c[3][1])
+        return None
+
+    def loops_of(stl, ctxs=(), g=()):
         for s in stl:
             if s[0] == "for":
-                yield from loops_of(s[3], ctxs + (s,))
+                yield from loops_of(s[3], ctxs + (s,), g)
+            elif s[0] == "if" and isinstance(s[1], tuple) and parity_guard(s[1]) and not s[3]:
+                yield from loops_of(s[2], ctxs, g + (parity_guard(s[1]),))
             elif s[0] == "assign":
+                guards[id(s)] = dict(g)
                 yield ctxs, s
 
     def rng(s):
@@ -422,6 +437,13 @@ def render_geom(ctx):
             continue
         rs = [rng(c) for c in ctxs]
         vars_ = [c[1][0].split("#")[0] for c in ctxs]
+        # `for v in a..b { if v % m == c { store } }` is the stepped range starting at the first v >= a with v % m == c
+        for k, v in enumerate(vars_):
+            gd = guards.get(id(a), {}).get(v)
+            if gd and rs[k] and rs[k][2] == 1 and set(rs[k][0]) <= {()}:
+                lo = rs[k][0].get((), 0)
+                lo2 = lo + ((gd[1] - lo) % gd[0])
+                rs[k] = ({(): lo2} if lo2 else {}, rs[k][1], gd[0])
         row, col = pos
         inner = rs[-1]
         # interior horizontal bars
